@@ -89,11 +89,40 @@ fn opt64(l: &str) -> Option<i64> {
     }
 }
 fn text(l: &str) -> String {
+    // sweeps: text:aN = N ascii bytes; text:uN = a 2-byte character straddling byte offset N (N-1 ascii bytes before it),
+    // then 40 more bytes; text:wN = a 3-byte and a 4-byte character around offset N
+    if let Some(n) = l.strip_prefix("text:a").and_then(|x| x.parse::<usize>().ok()) {
+        return (0..n).map(|i| (b'a' + (i % 26) as u8) as char).collect();
+    }
+    if let Some(n) = l.strip_prefix("text:u").and_then(|x| x.parse::<usize>().ok()) {
+        let mut t: String = (0..n.saturating_sub(1)).map(|_| 'x').collect();
+        t.push('é');
+        t.extend((0..40).map(|_| 'y'));
+        return t;
+    }
+    if let Some(n) = l.strip_prefix("text:w").and_then(|x| x.parse::<usize>().ok()) {
+        let mut t: String = (0..n.saturating_sub(2)).map(|_| 'x').collect();
+        t.push('€');
+        t.push('𝄞');
+        t.extend((0..10).map(|_| 'z'));
+        return t;
+    }
     match l {
         "text:empty" => "".into(),
         "text:utf8" => "ünï".into(),
         _ => "A Generic Error Ocurred".into(),
     }
+}
+fn text_labels() -> Vec<String> {
+    let mut v: Vec<String> = vec!["text:empty".into(), "text:generic".into(), "text:utf8".into()];
+    for n in (1..=300).chain([511, 512, 513, 1000]) {
+        v.push(format!("text:a{n}"));
+        v.push(format!("text:u{n}"));
+    }
+    for n in 2..=140 {
+        v.push(format!("text:w{n}"));
+    }
+    v
 }
 fn s<'a>(m: &'a Value, k: &str) -> &'a str {
     m[k].as_str().unwrap_or("none")
@@ -206,9 +235,23 @@ struct Labels {
     toks: HashMap<String, String>,
     vals: HashMap<String, String>,
     salts: HashMap<String, String>,
+    texts: HashMap<String, String>,
 }
 fn labels() -> Labels {
-    let mut l = Labels { ids: HashMap::new(), toks: HashMap::new(), vals: HashMap::new(), salts: HashMap::new() };
+    let mut l = Labels { ids: HashMap::new(), toks: HashMap::new(), vals: HashMap::new(), salts: HashMap::new(), texts: HashMap::new() };
+    // the sweeps of Krpc!Sweeps (the fixed labels below win where both exist)
+    for n in 0..=40usize {
+        l.toks.insert(hex(&tok(&format!("tok:{n}"))), format!("tok:{n}"));
+    }
+    for n in (0..=40usize).chain(990..=1010) {
+        l.vals.insert(hex(&val(&format!("v:{n}"))), format!("v:{n}"));
+    }
+    for n in 0..=70usize {
+        l.salts.insert(hex(&salt(&format!("salt:{n}"))), format!("salt:{n}"));
+    }
+    for t in text_labels().into_iter().rev() {
+        l.texts.insert(text(&t), t);
+    }
     for x in ["id:zero", "id:ff", "id:a"] {
         l.ids.insert(hex(&id_bytes(x)), x.into());
     }
@@ -256,7 +299,7 @@ fn label_dict(l: &Labels, d: &B) -> Value {
                 "e" => match v.as_list() {
                     Some(x) if x.len() == 2 => {
                         let t = String::from_utf8_lossy(x[1].as_bytes().unwrap_or(b"?")).to_string();
-                        let tl = ["text:empty", "text:generic", "text:utf8"].iter().find(|c| text(c) == t).map(|c| c.to_string()).unwrap_or(format!("?{t}"));
+                        let tl = l.texts.get(&t).cloned().unwrap_or(format!("?{}", t.chars().take(40).collect::<String>()));
                         json!([int_s(&x[0]), tl])
                     }
                     _ => json!("?e"),
